@@ -193,7 +193,7 @@ class ProgressivelyTerminalDecider(BaseDecider):
             if n in self.grammar.recursive_prods:
                 return target // (ctx.depth + 1)
             else:
-                return target - self.grammar.get_distance_to_terminal(n)
+                return max(target - self.grammar.get_distance_to_terminal(n), 0)
 
         weights = [w(alt) * self.grammar.get_weights().get(alt, 1.0) for alt in alternatives]
         return self.random.choice_weighted(alternatives, weights)
